@@ -20,7 +20,7 @@ Lemma source_switches :
   src_max_date_len = 127 /\ src_written_date_format = [37; 89; 47; 37; 109; 47; 37; 100] /\
   src_format_cache_exact_match = true /\
   src_year_directive_unconditional = true /\ src_year_directive_month = 12 /\ src_year_directive_day = 31 /\
-  src_file_end_restores_front_only = true.
+  src_file_end_unwinds_own_stack = true.
 Proof. repeat split. Qed.
 
 Definition I_md := [IDir 109; ILit 47; IDir 100].
@@ -1156,37 +1156,81 @@ Proof.
   rewrite final_app, (final_queries _ _ H). cbn. apply file_end_begin.
 Qed.
 
-(* a file that leaves exactly one year directive open gives the includer its clock back *)
-Lemma include_one_open st yr evs :
-  only_queries evs -> final_state st (JFileBegin :: JYear yr :: evs ++ [JFileEnd]) = st.
+(* the oldest clock saved on the stack of the file being read (the current one if none) *)
+Definition bottom (st : epoch_state) : ymd := last (es_stack st) (es_cur st).
+
+(* what one file may contain: directives, `end apply`, transactions, and whole included files *)
+Inductive file_body : list jevent -> Prop :=
+| fb_nil : file_body []
+| fb_year yr evs : file_body evs -> file_body (JYear yr :: evs)
+| fb_end evs : file_body evs -> file_body (JEnd :: evs)
+| fb_query evs : file_body evs -> file_body (JQuery :: evs)
+| fb_include inc evs : file_body inc -> file_body evs -> file_body (JFileBegin :: inc ++ JFileEnd :: evs).
+
+Lemma last_cons_ne (a : ymd) l d d' : l <> [] -> last (a :: l) d = last l d'.
 Proof.
-  intros H. cbn [final_state fold_left step].
-  fold (final_state (year_directive (file_begin st) yr) (evs ++ [JFileEnd])).
-  rewrite final_app, (final_queries _ _ H). destruct st. reflexivity.
+  intros N. revert a. induction l as [|b l IH]; intros a; [congruence|].
+  destruct l as [|c l]; [reflexivity|]. change (last (a :: b :: c :: l) d) with (last (b :: c :: l) d).
+  change (last (b :: c :: l) d') with (last (c :: l) d'). rewrite <- (IH ltac:(discriminate) b). reflexivity.
 Qed.
 
-(* a file whose `apply year` is closed by `end apply` likewise *)
-Lemma include_closed_apply st yr evs evs' :
-  only_queries evs -> only_queries evs' ->
-  final_state st (JFileBegin :: JYear yr :: evs ++ JEnd :: evs' ++ [JFileEnd]) = st.
+Lemma year_directive_bottom st yr : bottom (year_directive st yr) = bottom st /\ es_outer (year_directive st yr) = es_outer st.
 Proof.
-  intros H H'. cbn [final_state fold_left step].
-  fold (final_state (year_directive (file_begin st) yr) (evs ++ JEnd :: evs' ++ [JFileEnd])).
-  rewrite final_app, (final_queries _ _ H). cbn [final_state fold_left step].
-  rewrite end_apply_year_directive.
-  fold (final_state (file_begin st) (evs' ++ [JFileEnd])).
-  rewrite final_app, (final_queries _ _ H'). cbn. apply file_end_begin.
+  split; [|reflexivity]. unfold bottom, year_directive. cbn [es_stack es_cur].
+  destruct (es_stack st) as [|a l] eqn:E; [reflexivity|].
+  apply last_cons_ne. discriminate.
 Qed.
 
-(* two directives left open: the includer goes on in the year of the FIRST of them *)
-Lemma include_two_open st y1 y2 evs evs' :
-  only_queries evs -> only_queries evs' ->
-  es_cur (final_state st (JFileBegin :: JYear y1 :: evs ++ JYear y2 :: evs' ++ [JFileEnd])) = (y1, 12, 31).
+Lemma end_step_bottom st : bottom (step st JEnd) = bottom st /\ es_outer (step st JEnd) = es_outer st.
 Proof.
-  intros H H'. cbn [final_state fold_left step].
-  fold (final_state (year_directive (file_begin st) y1) (evs ++ JYear y2 :: evs' ++ [JFileEnd])).
-  rewrite final_app, (final_queries _ _ H). cbn [final_state fold_left step].
-  fold (final_state (year_directive (year_directive (file_begin st) y1) y2) (evs' ++ [JFileEnd])).
-  rewrite final_app, (final_queries _ _ H'). destruct st. reflexivity.
+  unfold step, end_apply, bottom. destruct (es_stack st) as [|a l] eqn:E; cbn [es_stack es_cur es_outer].
+  - rewrite E. split; reflexivity.
+  - split; [|reflexivity]. destruct l as [|b l]; [reflexivity|]. symmetry. apply last_cons_ne. discriminate.
 Qed.
 
+(* a file body keeps the oldest saved clock and the includers' stacks, and - wrapped as an
+   included file - gives back exactly the state it found *)
+Lemma file_body_spec evs : file_body evs ->
+  (forall st, bottom (final_state st evs) = bottom st /\ es_outer (final_state st evs) = es_outer st) /\
+  (forall st, final_state st (JFileBegin :: evs ++ [JFileEnd]) = st).
+Proof.
+  intros B.
+  assert (Wrap : forall evs, (forall st, bottom (final_state st evs) = bottom st /\ es_outer (final_state st evs) = es_outer st) ->
+                 forall st, final_state st (JFileBegin :: evs ++ [JFileEnd]) = st).
+  { intros e Inv st. cbn [final_state fold_left step]. fold (final_state (file_begin st) (e ++ [JFileEnd])).
+    rewrite final_app. destruct (Inv (file_begin st)) as [I1 I2]. cbn [final_state fold_left step].
+    unfold file_end. rewrite I2. cbn [file_begin es_outer].
+    change (last (es_stack (final_state (file_begin st) e)) (es_cur (final_state (file_begin st) e)))
+      with (bottom (final_state (file_begin st) e)).
+    rewrite I1. destruct st. reflexivity. }
+  induction B as [|yr evs B IH|evs B IH|evs B IH|inc evs Bi IHi B IH].
+  - split; [intros st; split; reflexivity | apply Wrap; intros st; split; reflexivity].
+  - destruct IH as [Inv _].
+    assert (Inv' : forall st, bottom (final_state st (JYear yr :: evs)) = bottom st /\ es_outer (final_state st (JYear yr :: evs)) = es_outer st).
+    { intros st. cbn [final_state fold_left step]. fold (final_state (year_directive st yr) evs).
+      destruct (Inv (year_directive st yr)) as [A1 A2]. destruct (year_directive_bottom st yr) as [C1 C2].
+      split; congruence. }
+    split; [exact Inv' | apply Wrap; exact Inv'].
+  - destruct IH as [Inv _].
+    assert (Inv' : forall st, bottom (final_state st (JEnd :: evs)) = bottom st /\ es_outer (final_state st (JEnd :: evs)) = es_outer st).
+    { intros st. change (final_state st (JEnd :: evs)) with (final_state (step st JEnd) evs).
+      destruct (Inv (step st JEnd)) as [A1 A2]. destruct (end_step_bottom st) as [C1 C2]. split; congruence. }
+    split; [exact Inv' | apply Wrap; exact Inv'].
+  - destruct IH as [Inv _].
+    assert (Inv' : forall st, bottom (final_state st (JQuery :: evs)) = bottom st /\ es_outer (final_state st (JQuery :: evs)) = es_outer st).
+    { intros st. exact (Inv st). }
+    split; [exact Inv' | apply Wrap; exact Inv'].
+  - destruct IHi as [_ Wi]. destruct IH as [Inv _].
+    assert (Inv' : forall st, bottom (final_state st (JFileBegin :: inc ++ JFileEnd :: evs)) = bottom st /\
+                              es_outer (final_state st (JFileBegin :: inc ++ JFileEnd :: evs)) = es_outer st).
+    { intros st. change (JFileBegin :: inc ++ JFileEnd :: evs) with ((JFileBegin :: inc ++ [JFileEnd] ++ evs)).
+      rewrite app_assoc. change (JFileBegin :: (inc ++ [JFileEnd]) ++ evs) with ((JFileBegin :: inc ++ [JFileEnd]) ++ evs).
+      rewrite final_app, Wi. apply Inv. }
+    split; [exact Inv' | apply Wrap; exact Inv'].
+Qed.
+
+Lemma include_exact evs st : file_body evs -> final_state st (JFileBegin :: evs ++ [JFileEnd]) = st.
+Proof. intros B. apply (proj2 (file_body_spec evs B)). Qed.
+
+Lemma file_body_queries evs : only_queries evs -> file_body evs.
+Proof. induction 1 as [|e evs -> _ IH]; [constructor | constructor; exact IH]. Qed.
